@@ -228,8 +228,9 @@ def analyse_tu(tu):
                 rule="UNIQ-COPY", function="sort_int_nodups", file=c.f, line=c.l,
                 construct="uniq output is %s, not %s" % (path(c.kids[1]), p0),
                 detail="the de-duplicated keys must end up in the caller's array", path=[]))
-    if len(ucalls) < 2:
+    if len(ucalls) < 1:
         raise AnalysisError("anchor vanished: uniq calls in sort_int_nodups")
+    findings.extend(_sorted_source(tu, sn))
     # multiunion_m: result length from sort_int_nodups
     mu = tu.func("multiunion_m")
     ok = False
@@ -313,3 +314,69 @@ def append_guard(tu):
                            "dominating `%s->len >= %s->size` test that grows "
                            "the arrays: write past the end of the block" % (x, x, x, x), path=[]))
     return dict(findings=findings, sites=sites)
+
+
+def _sorted_source(tu, sn):
+    """SORT-SOURCE: uniq reads the array that holds the sorted keys.  After
+    `radixsort_int(p, work, n)` that is the pointer it *returns* (p or work,
+    depending on the number of passes); after `quicksort(p, n)` it is p.  Path
+    rule over sort_int_nodups: where the sorted data is, whether uniq was given
+    that place, and that every return comes after a uniq call."""
+    from ..cfg import CFG
+    from ..flow import Analysis, sget, sset
+
+    class A(Analysis):
+        track_flags = False
+
+        def __init__(self, cfg, tu):
+            Analysis.__init__(self, cfg, tu)
+            self.bad = []
+
+        def on_node(self, node, st):
+            e = node.e
+            if e is None:
+                return [st]
+            for n in e.walk():
+                if n.k != "CallExpr" or callee(n)[0] != "fn":
+                    continue
+                nm = callee(n)[1]
+                if nm == "radixsort_int":
+                    holder = None
+                    for a in e.walk():
+                        if a.k == "BinaryOperator" and a.v == "=" and any(x is n for x in a.kids[1].walk()):
+                            holder = path(a.kids[0])
+                        if a.k == "VarDecl" and a.kids and any(x is n for x in a.kids[-1].walk()):
+                            holder = a.n
+                    st = sset(st, "src", ("result", holder))
+                elif nm == "quicksort":
+                    st = sset(st, "src", ("array", path(n.kids[1])))
+                elif nm == "uniq":
+                    src = sget(st, "src")
+                    given = path(n.kids[2])
+                    if src is None:
+                        self.bad.append((n, "uniq runs on unsorted data (no sort on this path)"))
+                    elif src[0] == "result" and src[1] is None:
+                        self.bad.append((n, "the pointer radixsort_int returns is dropped: the sorted keys may be "
+                                            "in the scratch buffer, uniq reads %s" % given))
+                    elif src[1] != given:
+                        self.bad.append((n, "uniq reads %s, the sorted keys are in %s" % (given, src[1])))
+                    st = sset(st, "u", True)
+            if node.kind == "return" and not sget(st, "u"):
+                self.bad.append((node.e if node.e is not None else sn, "a return without uniq: duplicates stay"))
+            return [st]
+
+    an = A(CFG(sn), tu)
+    an.solve()
+    out = []
+    seen = set()
+    for n, what in an.bad:
+        if what in seen:
+            continue
+        seen.add(what)
+        out.append(dict(
+            rule="UNIQ-COPY", function="sort_int_nodups", file=getattr(n, "f", sn.f), line=getattr(n, "l", sn.l),
+            construct="sort_int_nodups: %s" % what.split(":")[0][:80],
+            detail="%s; radixsort_int skips the passes of byte positions on which all keys agree, so "
+                   "after an odd number of passes the sorted data is in the scratch buffer - the result "
+                   "would be unsorted with duplicates" % what, path=[]))
+    return out
